@@ -16,8 +16,10 @@ import os
 
 ID = "C35"
 PROP_FILE = "Props/C35.v"
-THEOREMS = ["C35_a_inputs_never_modified", "C35_c_backup_exactly_once_in_order"]
-_COQ_BASE = "From BV Require Import Pure.Normalizer.\nFrom Coq Require Import String ZArith List.\nOpen Scope string_scope."
+THEOREMS = ["C35_a_inputs_never_modified", "C35_a_inputs_read_back_unchanged", "C35_b_reachable_states",
+            "C35_b_event_internal_values_kept", "C35_b_event_handler", "C35_b_external_reference",
+            "C35_b_cached_reference_at_stop", "C35_b_stop_handler", "C35_c_backup_exactly_once_in_order"]
+_COQ_BASE = "From BV Require Import Pure.Normalizer Pure.NormalizerSpec.\nFrom Coq Require Import String ZArith List.\nOpen Scope string_scope."
 COQ_IMPORTS = _COQ_BASE      # coq_term appends the table of interned string literals (see cstr)
 MODELLED = ("RunNormalizer's handlers and _ConditionalBackup are transcribed by hand (Pure/Normalizer.v): Python dicts/lists "
             "as objects in a store with identity, copy.copy = new top-level object sharing children, copy.deepcopy = private "
@@ -406,7 +408,11 @@ def impl(case):
         docs = [(n, copy.deepcopy(d)) for n, d in case["docs"]]
         before = [tag(d) for _, d in docs]
         nz, out, errs = run_normalizer(docs, set(case["fail_emit"]))
-        return {"out": out, "errs": errs, "before": before, "after": [tag(d) for _, d in docs],
+        canon = None
+        if not errs and not case["fail_emit"]:
+            _, cout, cerr = run_normalizer([(n, copy.deepcopy(d)) for n, d in datums_first(case["docs"])], set())
+            canon = {"out": [[n, d] for n, d in cout if n == "stream_datum"], "errs": cerr}
+        return {"out": out, "errs": errs, "before": before, "after": [tag(d) for _, d in docs], "canon": canon,
                 "int": sorted(nz._int_keys), "ext": sorted(nz._ext_keys),
                 "pending": [tag(k) for k in nz._datum_cache.keys()], "refs": len(nz._ext_ref_cache)}
     if kind == "backup":
@@ -471,6 +477,135 @@ def impl(case):
                 "buffer": [ident[id(d)] for _, d in cb._buffer], "push": bool(cb._push_to_backup)}
     raise ValueError(kind)
 
+
+
+# ----------------------------------------------------------------------------- mirrors of Coq predicates
+
+def datums_first(docs):
+    """mirror of NormalizerSpec.datums_first"""
+    k = next((i for i, (n, _) in enumerate(docs) if n in ("event", "event_page")), len(docs))
+    pre, post = docs[:k], docs[k:]
+    isd = lambda nd: nd[0] in ("datum", "datum_page")  # noqa: E731
+    return [nd for nd in pre if not isd(nd)] + [nd for nd in docs if isd(nd)] + [nd for nd in post if not isd(nd)]
+
+
+def _atom_eq(a, b):
+    return type(a) is type(b) and a == b and not isinstance(a, (dict, list))
+
+
+def finding_b(docs):
+    """mirror of Normalizer.finding_C35_b: a frame-carrying datum arrives after an event that refers to it"""
+    seen = []
+    for name, d in docs:
+        ids = []
+        if isinstance(d, dict):
+            kw, did = d.get("datum_kwargs"), d.get("datum_id")
+            if name == "datum" and isinstance(kw, dict) and "datum_id" in d:
+                if kw.get("frame") is not None:
+                    ids = [did]
+            elif name == "datum_page" and isinstance(kw, dict) and isinstance(did, list):
+                fs = kw.get("frame")
+                if isinstance(fs, list):
+                    ids = [i for i, f in zip(did, fs) if f is not None]
+        if any(_atom_eq(i, x) for i in ids for x in seen):
+            return True
+        if isinstance(d, dict) and isinstance(d.get("data"), dict):
+            if name == "event":
+                seen += list(d["data"].values())
+            elif name == "event_page":
+                for v in d["data"].values():
+                    if isinstance(v, list):
+                        seen += v
+    return False
+
+
+def _truthy(v):
+    return bool(v)
+
+
+def b_holds_py(case, obs, skip_order=False):
+    """mirror of NormalizerSpec.b_holds_b on the implementation's observation (runs without errors only)"""
+    docs = case["docs"]
+    evs = []
+    for name, d in docs:
+        if not isinstance(d, dict):
+            continue
+        if name == "event":
+            evs.append(d)
+        elif name == "event_page":
+            uids = d.get("uid") if isinstance(d.get("uid"), list) else []
+            seqs = d.get("seq_num") if isinstance(d.get("seq_num"), list) else []
+            data = d.get("data", {}) if isinstance(d.get("data", {}), dict) else {}
+            fl = d.get("filled", {}) if isinstance(d.get("filled", {}), dict) else {}
+            for j in range(len(uids)):
+                evs.append({"uid": uids[j], "descriptor": d.get("descriptor"), "seq_num": seqs[j] if j < len(seqs) else None,
+                            "data": {k: v[j] for k, v in data.items()}, "filled": {k: v[j] for k, v in fl.items()}})
+    out = [(n, untag(d)) for n, d in obs["out"]]
+    if [d.get("uid") for n, d in out if n == "event"] != [e.get("uid") for e in evs]:
+        return "events out %s, events in %s" % ([d.get("uid") for n, d in out if n == "event"], [e.get("uid") for e in evs])
+    descs = []
+    for name, d in docs:
+        if name == "descriptor" and isinstance(d, dict):
+            descs.append((d.get("uid"), d.get("data_keys", {}) if isinstance(d.get("data_keys", {}), dict) else {}))
+    isext = lambda spec: isinstance(spec, dict) and "external" in spec  # noqa: E731
+    exts = [k for _, dk in descs for k, sp in dk.items() if isext(sp)]
+    ints = [k for _, dk in descs for k, sp in dk.items() if not isext(sp)]
+    if any(k in ints for k in exts):
+        return None
+    exp = []
+    for e in evs:
+        dk = next((dk for u, dk in descs if _atom_eq(u, e.get("descriptor"))), None)
+        if dk is None:
+            continue
+        fl = e.get("filled", {}) if isinstance(e.get("filled", {}), dict) else {}
+        data = e.get("data", {}) if isinstance(e.get("data", {}), dict) else {}
+        for k, v in data.items():
+            if k in dk and isext(dk[k]) and not _truthy(fl.get(k, False)):
+                exp.append((e, k, v))
+    passthrough = [d.get("uid") for n, d in docs if n == "stream_datum" and isinstance(d, dict)]
+    conv = [d.get("uid") for n, d in out if n == "stream_datum" and not any(_atom_eq(d.get("uid"), p) for p in passthrough)]
+    ids = [v for _, _, v in exp]
+    cnt = lambda u, l: sum(1 for x in l if _atom_eq(u, x))  # noqa: E731
+    if len(ids) != len(conv) or any(cnt(u, ids) != cnt(u, conv) for u in ids):
+        return "datum ids referred to by events %s, stream datums made %s" % (ids, conv)
+    frames = []
+    for name, d in docs:
+        if not isinstance(d, dict):
+            continue
+        kw = d.get("datum_kwargs", {}) if isinstance(d.get("datum_kwargs", {}), dict) else {}
+        if name == "datum":
+            frames.append((d.get("datum_id"), kw.get("frame")))
+        elif name == "datum_page" and isinstance(d.get("datum_id"), list):
+            fs = kw.get("frame") if isinstance(kw.get("frame"), list) else []
+            for j, i in enumerate(d["datum_id"]):
+                frames.append((i, fs[j] if j < len(fs) else None))
+
+    def ranges(uid, o):
+        for n, d in o:
+            if n == "stream_datum" and _atom_eq(d.get("uid"), uid):
+                try:
+                    return (d["indices"]["start"], d["indices"]["stop"], d["seq_nums"]["start"], d["seq_nums"]["stop"])
+                except (KeyError, TypeError):
+                    return None
+        return None
+
+    cout = [(n, untag(d)) for n, d in (obs["canon"] or {"out": []})["out"]]
+    for e, k, v in exp:
+        r = ranges(v, out)
+        if r is None:
+            return "no stream datum for %s" % (v,)
+        i0, i1, q0, q1 = r
+        if (q0, q1) != (i0 + 1, i1 + 1):
+            return "stream datum %s: seq_nums [%s,%s) are not indices [%s,%s) + 1" % (v, q0, q1, i0, i1)
+        fr = next((f for i, f in frames if _atom_eq(i, v)), None)
+        if fr is None:
+            q = e.get("seq_num")
+            if not (isinstance(q, int) and not isinstance(q, bool) and (i0, i1) == (q - 1, q)):
+                return "stream datum %s of the event with seq_num %s has indices [%s,%s)" % (v, q, i0, i1)
+        if not skip_order and ranges(v, cout) != r:
+            return ("stream datum %s of the event with seq_num %s: ranges %s depend on the arrival order "
+                    "(datums first: %s)" % (v, e.get("seq_num"), r, ranges(v, cout)))
+    return None
 
 # ----------------------------------------------------------------------------- rendering to Coq
 
@@ -540,11 +675,17 @@ def coq_term(case, obs):
     if kind == "norm":
         if any(e not in ERRS for _, e in obs["errs"]):
             return None          # schema validation raised: outside the modelled fragment
-        return ("agrees (run " + MODE + " %s %s) [%s] %s %s %s %s %s %d" % (
-            clist(case["fail_emit"]), cdocs(case["docs"]),
+        fmt = "(let docs := %s in agrees (run " + MODE + " %s docs) [%s] %s %s %s %s %s %d && Bool.eqb (finding_C35_b docs) %s"
+        t = (fmt % (
+            cdocs(case["docs"]), clist(case["fail_emit"]),
             "; ".join("(%s, %s)" % (cstr(n), cval(d)) for n, d in obs["out"]),
             cerrs(obs["errs"]), clist(obs["after"], cval), clist(obs["int"], cstr), clist(obs["ext"], cstr),
-            clist(obs["pending"], cval), obs["refs"]))
+            clist(obs["pending"], cval), obs["refs"], cbool(finding_b(case["docs"]))))
+        if obs["canon"] is not None and MODE == "Deep":
+            # the boolean form of the run-level statement (b) must give the same verdict on the model
+            # as its mirror gives on the implementation's observation
+            t += " && Bool.eqb (b_holds_b docs) %s" % cbool(b_holds_py(case, obs) is None)
+        return t + ")"
     if kind == "backup":
         if case["bfail"] and False:
             return None
@@ -558,12 +699,12 @@ def coq_term(case, obs):
     if kind == "chain":
         exp_log = clist([(d, b) for d, b, _, _ in obs["blog"]], lambda p: "(%d, %d)" % p)
         n = len(case["docs"])
-        return ("(let r := run " + MODE + " %s %s in let raises := map (fun i => existsb (fun e => Nat.eqb (fst e) i) (r_errs r)) (seq 0 %d) in "
+        fmt = ("(let r := run " + MODE + " %s %s in let raises := map (fun i => existsb (fun e => Nat.eqb (fst e) i) (r_errs r)) (seq 0 %d) in "
                 "let '(c, log) := cb_run nat 1000000%%N %d (cb0 nat) (seq 0 %d) raises in "
                 "list_beq (prod_beq Nat.eqb Nat.eqb) log %s && lnat_beq (cb_buffer nat c) %s && Bool.eqb (cb_push nat c) %s "
-                "&& after_sim (r_after r) %s)" % (
-                    clist(case["fail_emit"]), cdocs(case["docs"]), n, case["nb"], n, exp_log,
-                    clist(obs["buffer"]), cbool(obs["push"]), clist(obs["after"], cval)))
+                "&& after_sim (r_after r) %s)")
+        return fmt % (clist(case["fail_emit"]), cdocs(case["docs"]), n, case["nb"], n, exp_log,
+                      clist(obs["buffer"]), cbool(obs["push"]), clist(obs["after"], cval))
     return None
 
 
@@ -616,7 +757,7 @@ def _datums(docs):
 RESERVED = {"time": "_time", "seq_num": "_seq_num"}
 
 
-def oracle_norm(case, obs):
+def oracle_norm(case, obs, skip_order=False):
     # (a) the caller's documents are untouched, nested dictionaries included
     if obs["after"] != obs["before"]:
         for i, (a, b) in enumerate(zip(obs["after"], obs["before"])):
@@ -668,6 +809,11 @@ def oracle_norm(case, obs):
                 return "internal value %s=%r of event %s is missing from the emitted event" % (k, v, e["uid"])
             if em["timestamps"].get(k2) != tag(e["timestamps"].get(k)):
                 return "timestamp of %s of event %s is missing from the emitted event" % (k, e["uid"])
+    # (b) over the whole run, incl. independence of the arrival order (mirror of b_holds_b)
+    if obs.get("canon") is not None:
+        why = b_holds_py(case, obs, skip_order)
+        if why:
+            return why
     # (b) external references: every (event, unfilled external key) whose datum is in the stream -> exactly one stream datum
     if not failed_docs and not case["fail_emit"]:
         datums = _datums(docs)
@@ -756,6 +902,10 @@ def oracle(case, obs):
 
 
 def finding(case, obs):
+    """C35-b: a frame-carrying datum arrives after an event that refers to it (mirror of finding_C35_b);
+    only failures of the order-independence / range part of (b) belong to it"""
+    if case["kind"] == "norm" and finding_b(case["docs"]) and oracle_norm(case, obs, skip_order=True) is None:
+        return "b"
     return None
 
 
